@@ -233,7 +233,7 @@ func verifC20serve(K, preempt, forks int) {
 func verif_C20_races() {
 	verifPreemptBound(verifBound(1, 2))
 	verifSchedForkBound(verifBound(3, 5))
-	scenario := verifChoice(5)
+	scenario := verifChoice(6)
 	be := &vbackend{lmtpSession: scenario == 4}
 	be.dataFn = func(_ *vsession, r io.Reader) error {
 		_, e := verifReadAll(r, 4)
@@ -264,6 +264,30 @@ func verif_C20_races() {
 		in = "EHLO c\r\nMAIL FROM:<a@v>\r\nRCPT TO:<b@v>\r\nBDAT 2\r\nabRSET\r\nMAIL FROM:<a2@v>\r\nRCPT TO:<b2@v>\r\nBDAT 2 LAST\r\nxy"
 	case 2:
 		in = "EHLO c\r\nMAIL FROM:<a@v>\r\nRCPT TO:<b@v>\r\nDATA\r\nx\r\n.\r\nEHLO d\r\nNOOP\r\n"
+	}
+	if scenario == 5 {
+		// two connections served at the same time by one Server: whatever
+		// they share must be synchronised
+		conv := "EHLO c\r\nMAIL FROM:<a@v>\r\nRCPT TO:<b@v>\r\nDATA\r\nx\r\n.\r\nBDAT 2 LAST\r\nabFROB\r\nQUIT\r\n"
+		c1 := newConn(&vconn{in: []byte(conv), final: io.EOF}, s)
+		c2 := newConn(&vconn{in: []byte(conv), final: io.EOF}, s)
+		verifHB(true)
+		d1, d2 := make(chan struct{}), make(chan struct{})
+		go func() {
+			s.handleConn(c1)
+			close(d1)
+		}()
+		go func() {
+			s.handleConn(c2)
+			close(d2)
+		}()
+		<-d1
+		<-d2
+		verifSettle()
+		verifObserve("c20r", scenario)
+		verifAssert(verifGoroutinesAlive() == 0, "C20.races-no-goroutine-left")
+		verifReach("C20.races-end")
+		return
 	}
 	vc := &vconn{in: []byte(in), final: io.EOF}
 	if scenario == 0 || scenario == 2 {
